@@ -333,6 +333,108 @@ func RefECDSAKeyGen(seed []byte, cur *ref.Curve) *big.Int {
 	return d.Add(d, big.NewInt(1))
 }
 
+// LeadingZeroSeeds: seeds (32 bytes, a counter in the first 8) whose PRESCRIBED scalar starts with `bits` zero bits, found with the
+// reference derivation alone (no library call): generation must return exactly that key, however short its significant part is
+func LeadingZeroSeeds(algoName string, bits uint, want int, limit uint64, seed int64) [][]byte {
+	_, cur, _ := algoOf(algoName)
+	bound := new(big.Int).Lsh(big.NewInt(1), 256-bits)
+	var mu sync.Mutex
+	var out [][]byte
+	var wg sync.WaitGroup
+	workers := 16
+	for wk := 0; wk < workers; wk++ {
+		wg.Add(1)
+		go func(wk int) {
+			defer wg.Done()
+			sd := make([]byte, 32)
+			for i := 8; i < 32; i++ {
+				sd[i] = byte(seed>>uint(8*(i%8))) ^ byte(i*37)
+			}
+			for c := uint64(wk); c < limit; c += uint64(workers) {
+				if c%4096 == uint64(wk) {
+					mu.Lock()
+					done := len(out) >= want
+					mu.Unlock()
+					if done {
+						return
+					}
+				}
+				for b := 0; b < 8; b++ {
+					sd[b] = byte(c >> uint(8*b))
+				}
+				var d *big.Int
+				if cur == nil {
+					d = RefBLSKeyGen(sd)
+				} else {
+					d = RefECDSAKeyGen(sd, cur)
+				}
+				if d.Cmp(bound) < 0 {
+					mu.Lock()
+					out = append(out, append([]byte(nil), sd...))
+					mu.Unlock()
+				}
+			}
+		}(wk)
+	}
+	wg.Wait()
+	return out
+}
+
+// RunLeadingZeros: key generation from seeds whose prescribed scalar has 8 / 16 (thorough: 24) leading zero bits
+func RunLeadingZeros(seed int64, deep bool) (res Result) {
+	res.Violations = []Violation{}
+	defer func() {
+		if r := recover(); r != nil {
+			res.Violations = append(res.Violations, Violation{"C09", "NoPanic", fmt.Sprintf("key generation, leading-zero scalars: panic: %v", r)})
+		}
+	}()
+	for _, an := range []string{"BLS", "P-256", "secp256k1"} {
+		algo, cur, _ := algoOf(an)
+		plans := []struct {
+			bits  uint
+			limit uint64
+		}{{8, 1 << 14}, {16, 1 << 21}}
+		if deep {
+			plans = append(plans, struct {
+				bits  uint
+				limit uint64
+			}{24, 1 << 28})
+		}
+		for _, pl := range plans {
+			seeds := LeadingZeroSeeds(an, pl.bits, 2, pl.limit, seed)
+			for _, sd := range seeds {
+				var want *big.Int
+				if cur == nil {
+					want = RefBLSKeyGen(sd)
+				} else {
+					want = RefECDSAKeyGen(sd, cur)
+				}
+				wb := make([]byte, 32)
+				want.FillBytes(wb)
+				res.Evals++
+				sk, err := crypto.GeneratePrivateKey(algo, append([]byte(nil), sd...))
+				if err != nil || !bytes.Equal(sk.Encode(), wb) {
+					got := []byte(nil)
+					if sk != nil {
+						got = sk.Encode()
+					}
+					res.Violations = append(res.Violations, Violation{"C12", "DocumentedDerivation",
+						fmt.Sprintf("%s key from seed %x (prescribed scalar %x with %d leading zero bits): got %x, err %v", an, sd, wb, pl.bits, got, err)})
+					continue
+				}
+				if pk := sk.PublicKey().Encode(); !bytes.Equal(pk, refPublicKey(an, cur, want)) {
+					res.Violations = append(res.Violations, Violation{"C12", "PublicKeyIsScalarTimesGenerator", fmt.Sprintf("%s key with %d leading zero bits: public key %x", an, pl.bits, pk)})
+				}
+				d2, err := crypto.DecodePrivateKey(algo, wb)
+				if err != nil || !d2.Equals(sk) {
+					res.Violations = append(res.Violations, Violation{"C12", "Deterministic", fmt.Sprintf("%s key with %d leading zero bits does not round-trip through its 32-byte encoding (%v)", an, pl.bits, err)})
+				}
+			}
+		}
+	}
+	return
+}
+
 type KeyGenCase struct {
 	Job struct {
 		Kind   string `json:"kind"`
